@@ -1,6 +1,7 @@
 """C18 EBPPS: thin structural clauses (bookkeeping, closed forms, merge accounting); see rules/sampling_rules.py."""
 import sampling_rules as S
 import generic_lints
+import hazard_lints
 import triggers
 import c19_rules
 import predicates
@@ -15,6 +16,7 @@ def run(facts, tier):
         ("emptiness predicate support", lambda fa: predicates.obligations(fa, ['ebpps_sketch']), 1, "is_empty keeps its reviewed support"),
         ("reader dead-reads", lambda fa: [o for o in dead_reads.obligations(fa) if "ebpps" in o["key"]], 6, "every field the EBPPS readers take from the image reaches the restored sketch on every accepting path"),
         ("tautologies", lambda fa: generic_lints.tautologies(fa, ('sampling/',)), 2, "no comparison / assignment / min-max with two identical operands"),
+        ("hazards", lambda fa: hazard_lints.hazards(fa, ('sampling/',)), 2, "no 64-bit value silently narrowed at a call of a library function, no numeric_limits<floating>::min() as a lowest value, no random engine constructed inside a loop, no read of a moved-from parameter, no unguarded unsigned `x - c` loop bound (reviewed instances in spec/hazards.json)"),
         ("duplicate operands", lambda fa: generic_lints.duplicate_conjuncts(fa, ('sampling/',)), 2, "no logical chain tests the same operand twice"),
         ("structural triggers", lambda fa: triggers.obligations(fa, ['ebpps_sketch']), 7, "the comparisons that decide when to compress / grow / downsample keep their reviewed boundary (operator and constants)"),
     ):
